@@ -15,7 +15,7 @@ func (r *vfScript2) Render(s sdf.SDF2, out sdf.Line2Writer) {
 }
 func (r *vfScript2) Info(s sdf.SDF2) string { return "scripted" }
 
-var vfPatterns2 = [][]int{{}, {0}, {1}, {127}, {128}, {129}, {1, 127, 1}, {0, 3, 0}, {130, 130}, {257}}
+var vfPatterns2 = [][]int{{}, {0}, {1}, {127}, {128}, {129}, {1, 127, 1}, {0, 3, 0}, {130, 130}, {257}, {1, 128}, {5, 200, 3}, {127, 128, 127}}
 
 func vfMakeLines(pat []int, nsym int) ([][]*sdf.Line2, []*sdf.Line2) {
 	var all []*sdf.Line2
@@ -126,10 +126,23 @@ func vc_C15_savesvg() {
 
 // 3MF: one object, one build item, vertices handed to the mesh builder as the
 // float32 rounding of the inputs, triangles in order with winding preserved.
+// Batch patterns with concrete distinct vertices ...
 func vc_C15_to3mf() {
 	pat := vfPatterns[vfCase("pattern", len(vfPatterns))]
-	nsym := 2
-	batches, all := vfMakeBatches(pat, nsym)
+	batches, all := vfMakeBatches(pat, 0)
+	vfCheck3MF(batches, all, len(all))
+}
+
+// ... and two arbitrary triangles, whose six vertices may coincide in any way
+// (duplicate triangles, shared vertices, degenerate triangles): the mesh
+// builder's de-duplication forks on every equality.
+func vc_C15_to3mf_shared() {
+	pat := [][]int{{2}, {1, 1}, {1}}[vfCase("pattern", 3)]
+	batches, all := vfMakeBatches(pat, 2)
+	vfCheck3MF(batches, all, 2)
+}
+
+func vfCheck3MF(batches [][]*sdf.Triangle3, all []*sdf.Triangle3, nsym int) {
 	To3MF(nil, vfOutPathNote(vfOutPath("c15.3mf")), &vfScript3{batches})
 	vfReach("To3MF returned")
 	n := len(all)
@@ -139,9 +152,12 @@ func vc_C15_to3mf() {
 	vfAssert(vfLibArgF("3mf.Encode", 0, 2) == 0, "To3MF: unit is millimetre (the zero value)")
 	vfAssert(vfLibCalls("3mf.Triangle") == n, "To3MF: one triangle per input triangle")
 	vfAssert(vfLibCalls("3mf.Close") == 1, "To3MF: file closed once")
+	if vfLibCalls("3mf.Triangle") != n {
+		return
+	}
 	tol := vfTol(0, 0.00011) // exact under the stub; the file holds four decimals (native replay)
 	for k, t := range all {
-		if k >= nsym && k != n-1 {
+		if k >= nsym && k != n-1 && k%64 != 0 {
 			continue
 		}
 		for i := 0; i < 3; i++ {
@@ -175,4 +191,16 @@ func vc_C12_tosvg_faults() {
 	vfFaults(true)
 	ToSVG(nil, vfOutPath("c12.svg"), &vfScript2{batches})
 	vfReach("ToSVG returned")
+}
+
+// C11 for line segments: the DXF / SVG line lists and the 3MF triangle list
+// hold each written item exactly once, in order (same harnesses as C15).
+func vc_C11_todxf_sequence() { vc_C15_todxf() }
+func vc_C11_to3mf_sequence() { vc_C15_to3mf() }
+func vc_C11_tosvg_sequence() {
+	pat := [][]int{{1, 128, 1}, {130, 130}, {127, 1, 1}}[vfCase("pattern", 3)]
+	batches, all := vfMakeLines(pat, 0)
+	ToSVG(nil, vfOutPathNote(vfOutPath("c11.svg")), &vfScript2{batches})
+	vfReach("ToSVG returned")
+	vfCheckSVG(all, "ToSVG")
 }
